@@ -108,17 +108,23 @@ def process_period(mp_stream: models.MultiPeriodStream,
     period.stream_pk = stream.pk
     period.ordering = data['ordering']
     period.pid = data['pid']
-    if data['start'] in {"", "PT0S"}:
-        period.start = datetime.timedelta()
-    else:
-        period.start = from_isodatetime(data['start'])
+    duration: datetime.timedelta | None = None
+    try:
+        if data['start'] in {"", "PT0S"}:
+            period.start = datetime.timedelta()
+        else:
+            period.start = from_isodatetime(data['start'])
+        if data['duration'] not in {"", "PT0S"}:
+            duration = from_isodatetime(data['duration'])
+    except ValueError as err:
+        return f"Invalid start or duration for period {data['pid']}: {err}"
     mod_seg, start_tc, origin = mf.representation.get_segment_index(
         int(period.start.total_seconds() * mf.representation.timescale))
     period.start = timecode_to_timedelta(start_tc, mf.representation.timescale)
-    if data['duration'] in {"", "PT0S"}:
+    if duration is None:
         period.duration = stream.duration()
     else:
-        period.duration = from_isodatetime(data['duration'])
+        period.duration = duration
     if new_period:
         models.db.session.add(period)
     unused_tracks: set[int] = set()
